@@ -97,7 +97,17 @@ def consumption(facts, tree, n, fn_root, depth=0):
         if name in PROPAGATE:
             if is_io_result(facts, p):
                 return consumption(facts, tree, p, fn_root, depth + 1)
+            if "Iterator" in (p.get("f") or {}).get("def", "") or (p.get("f") or {}).get("trait", "").endswith("Iterator"):
+                return consumption(facts, tree, p, fn_root, depth + 1)
             return ("unresolved", "." + name + "() changes the type")
+        if name == "flatten" and "Result<" in facts.ty(n):
+            return ("dropped", ".flatten() over Results: an Err yields no item and is lost")
+        if name in ("collect", "sum", "product", "try_fold", "try_for_each"):
+            if is_io_result(facts, p):
+                return consumption(facts, tree, p, fn_root, depth + 1)
+            return ("unresolved", "." + name + "() into a non-Result value")
+        if name in ("enumerate", "zip", "take", "skip", "rev", "peekable", "by_ref", "chain", "inspect"):
+            return consumption(facts, tree, p, fn_root, depth + 1)
         return ("unresolved", "method ." + str(name))
     if k in ("Match", "LetE") and slot in ("e", "init"):
         if k == "LetE":
@@ -134,6 +144,13 @@ def consumption(facts, tree, n, fn_root, depth=0):
     if k is None and "body" in p and tree.slot_of(p) == "arms":
         return consumption(facts, tree, tree.up(p), fn_root, depth + 1)
     if k == "Closure" and slot == "body":
+        # the closure's io::Result is an item of the adaptor it is handed to
+        ad = tree.up(p)
+        name = ad.get("name") if ad is not None and ad.get("k") == "MCall" else None
+        if name in ("flat_map", "filter_map", "flatten"):
+            return ("dropped", ".%s() iterates each Result: an Err yields no item and is lost" % name)
+        if name in ("map", "map_while", "scan", "inspect", "enumerate", "zip", "take", "skip"):
+            return consumption(facts, tree, ad, fn_root, depth + 1)
         return ("ok", "closure result handed to the adaptor")
     if k == "Semi":
         return ("dropped", "statement value discarded")
